@@ -395,7 +395,7 @@ func init() {
 	})
 
 	register(&Rule{
-		ID: "flow.first-block-wins", Props: []string{"C02", "C10"}, Floor: 3,
+		ID: "flow.first-block-wins", Props: []string{"C02", "C10"}, Floor: 2,
 		Doc: "flow.Slot.Check returns a controller's result from inside the loop exactly when its status is Blocked and otherwise visits every controller and returns the context's pass result; it sleeps exactly NanosToWait() of a ShouldWait result (>0), never on a blocked one, and nothing else reachable from it sleeps",
 		Run: func(c *Ctx) {
 			f := c.P.Func("core/flow.(*Slot).Check")
@@ -406,6 +406,13 @@ func init() {
 			blocked, _ := constValue(c.P, "core/base.ResultStatusBlocked")
 			wait, _ := constValue(c.P, "core/base.ResultStatusShouldWait")
 			loops := loopBlocks(f)
+			early := 0
+			for _, r := range returnsOf(f) {
+				if strings.Contains(accessPath(r.Results[0]), "canPassCheck") {
+					early++
+				}
+			}
+			c.Check(early > 0, fnKey(f)+" / blocked-result-returned", f.Pos(), "a blocked controller result is returned from inside the loop (%d such returns): otherwise later controllers still run, sleep and consume after a block", early)
 			for i, r := range returnsOf(f) {
 				key := fmt.Sprintf("%s / return#%d", fnKey(f), i+1)
 				p := accessPath(r.Results[0])
